@@ -60,6 +60,25 @@ def gen_index(rng, shape, malformed=False):
             arr = tuple([inner] + rest)
         return arr, ["int-array-repeats", "alias-" + ("distinct-literals" if len(set(vals)) == len(vals) else "literal-repeat"),
                      "spelled-" + spell]
+    if not malformed and 0.22 <= style < 0.30 and nd >= 2:
+        # a Python list of booleans (a mask, not positions) as ONE component of the index tuple, next to ints / slices /
+        # integer lists; all-True and all-False masks included
+        ax = rng.randrange(nd)
+        parts = []
+        for d_ in range(nd):
+            if d_ == ax:
+                kindm = rng.random()
+                m = [True] * shape[d_] if kindm < 0.25 else [False] * shape[d_] if kindm < 0.35 else [rng.random() < 0.5 for _ in range(shape[d_])]
+                parts.append(m if rng.random() < 0.7 else onp.array(m))
+            else:
+                parts.append(rng.choice([slice(None), rng.randrange(shape[d_]), slice(None, None, -1), slice(0, 1)]))
+        return tuple(parts), ["bool-list-in-tuple"]
+    if not malformed and 0.30 <= style < 0.36 and nd >= 2:
+        # one integer array (or list) per axis: pointwise selection x[rows, cols, ...], with repeats and negative entries
+        ln = rng.randint(1, 4)
+        parts = [[rng.randint(-d_, d_ - 1) for _ in range(ln)] for d_ in shape]
+        parts = [p if rng.random() < 0.5 else onp.array(p) for p in parts]
+        return tuple(parts), ["pointwise-arrays", "int-array-repeats"]
     want_adv = style < 0.45
     n_adv = 0
     while used < nd:
@@ -209,11 +228,14 @@ def main():
                 uses.append({"sigma": [int(t) for t in onp.asarray(sel).ravel()], "w": [int(t) for t in onp.asarray(w).ravel()]})
                 terms.append(("s", idx, w))
 
-        def f(a):
+        viaT = [rng.random() < 0.5 for _ in terms]
+
+        def f(a, viaT=viaT):
             tot = 0.0
-            for t in terms:
+            for t, vt in zip(terms, viaT):
                 if t[0] == "d":
-                    tot = tot + anp.sum(t[1] * a)
+                    # (half of the dense uses go through a transpose: their cotangent reaches `a` as a Fortran-ordered view)
+                    tot = tot + (anp.sum(t[1].T * a.T) if vt else anp.sum(t[1] * a))
                 else:
                     tot = tot + anp.sum(t[2] * a[t[1]])
             return tot
